@@ -36,6 +36,46 @@ def Cylinder.scaledXZ (c : Cylinder K) (sx sy : K) : Cylinder K := ⟨nabs (c.hh
 /-- `Cone::scaled`, `scale.x == scale.z ∧ scale.y ≥ 0` branch -/
 def Cone.scaledXZ (c : Cone K) (sx sy : K) : Cone K := ⟨c.hh * sy, nabs (c.r * sx)⟩
 
+/-- dispatch of `Ball/Capsule::scaled` (3-D): the shape-preserving branch is taken iff the three scale components are equal
+(`!=` on floats) -/
+def uniformScale (s : V3 K) : Bool := neq s.x s.y && neq s.x s.z && neq s.y s.z
+def Capsule3.scaled (c : Capsule3 K) (s : V3 K) : Option (Capsule3 K) :=
+  if uniformScale s then some (c.scaledUniform s.x) else none
+def Ball.scaled (b : Ball K) (s : V3 K) : Option (Ball K) :=
+  if uniformScale s then some (b.scaledUniform s.x) else none
+/-- `Cylinder::scaled`: cylinder iff `scale.x == scale.z` -/
+def Cylinder.scaled (c : Cylinder K) (s : V3 K) : Option (Cylinder K) :=
+  if neq s.x s.z then some (c.scaledXZ s.x s.y) else none
+/-- `Cone::scaled`: cone iff `scale.x == scale.z && scale.y >= 0` -/
+def Cone.scaled (c : Cone K) (s : V3 K) : Option (Cone K) :=
+  if !(neq s.x s.z) || decide (s.y < 0) then none else some (c.scaledXZ s.x s.y)
+
+/-! ### heightfield discretization: `HeightField::triangles_at` (3-D) -/
+structure CellStatus where
+  zigzag : Bool
+  leftRemoved : Bool
+  rightRemoved : Bool
+
+/-- `triangles_at(i, j)`: heights of the four cell corners are given (`y00 = heights[(i,j)]`, `y10 = heights[(i+1,j)]`,
+`y01 = heights[(i,j+1)]`, `y11 = heights[(i+1,j+1)]`); `nrows`, `ncols` as scalars. -/
+def hfTrianglesAt (nrows ncols : K) (i j : K) (y00 y10 y01 y11 : K) (scale : V3 K) (st : CellStatus) :
+    Option (Triangle3 K) × Option (Triangle3 K) :=
+  if st.leftRemoved && st.rightRemoved then (none, none) else
+  let cw := (1 : K) / (ncols - 1)
+  let ch := (1 : K) / (nrows - 1)
+  let z0 := -(lit 1 2) + ch * i
+  let z1 := -(lit 1 2) + ch * (i + 1)
+  let x0 := -(lit 1 2) + cw * j
+  let x1 := -(lit 1 2) + cw * (j + 1)
+  let p00 := (⟨x0, y00, z0⟩ : V3 K).cmul scale
+  let p10 := (⟨x0, y10, z1⟩ : V3 K).cmul scale
+  let p01 := (⟨x1, y01, z0⟩ : V3 K).cmul scale
+  let p11 := (⟨x1, y11, z1⟩ : V3 K).cmul scale
+  if st.zigzag then
+    (if st.leftRemoved then none else some ⟨p00, p10, p11⟩, if st.rightRemoved then none else some ⟨p00, p11, p01⟩)
+  else
+    (if st.leftRemoved then none else some ⟨p00, p10, p01⟩, if st.rightRemoved then none else some ⟨p10, p11, p01⟩)
+
 /-- one vertex of `push_circle(radius, _, _, y)` at angle with cosine `c` and sine `s` -/
 def circlePoint (radius y c s : K) : V3 K := ⟨c * radius, y, s * radius⟩
 
